@@ -9,7 +9,9 @@ Record sobs := { sb_hash : N; sb_state : tstate; sb_health : health; sb_series :
    metric (the harness' payloads have two: `keepme`, `dropme`) the (kept, all) counts *)
 Record samp := { sm_job : N; sm_scraped : Z; sm_keep : Z * Z; sm_drop : Z * Z }.
 Record sc_obs := { so_status : list sobs (* sorted by hash *); so_head : Z; so_proc : Z; so_idle : option Z; so_ok : bool (* the op's API call succeeded *);
-                   so_samples : list samp (* sorted by job *); so_samples_stable : bool (* a second GET answered the same *) }.
+                   so_samples : list samp (* sorted by job *); so_samples_stable : bool (* a second GET answered the same *);
+                   so_injected : list (N * list N) (* what the injector wrote for the shard's Prometheus: per job (ascending) the hashes
+                                                      (ascending) of its static targets; jobs without targets left out *) }.
 Record sc_case := { sk_prom : Z; sk_now0 : Z; sk_ops : list sc_op; sk_seen : list sc_obs (* after start-up, then after each op *) }.
 
 Fixpoint insert_sobs (t : sobs) (l : list sobs) : list sobs :=
@@ -37,9 +39,22 @@ Fixpoint insert_samp (t : samp) (l : list samp) : list samp :=
   end.
 Definition model_samples (s : sidecar) : list samp :=
   fold_right insert_samp [] (map (fun jt => samples_of_job (sc_status s) (fst jt) (snd jt)) (sc_targets s)).
+(* the generated configuration file: the real binary hands every assignment the targets manager takes up - from a
+   request or from its store - to the injector before anything else (cmd/kvass/sidecar.go) *)
+Fixpoint insert_N (x : N) (l : list N) : list N :=
+  match l with [] => [x] | y :: r => if (x <=? y)%N then x :: l else y :: insert_N x r end.
+Fixpoint insert_job (j : N) (hs : list N) (l : list (N * list N)) : list (N * list N) :=
+  match l with
+  | [] => [(j, hs)]
+  | (j', hs') :: r => if N.eqb j j' then (j', fold_right insert_N hs' hs) :: r
+                      else if (j <? j')%N then (j, hs) :: l else (j', hs') :: insert_job j hs r
+  end.
+Definition model_injected (s : sidecar) : list (N * list N) :=
+  filter (fun jh => negb (match snd jh with [] => true | _ => false end))
+         (fold_right (fun jt acc => insert_job (fst jt) (fold_right insert_N [] (map t_hash (snd jt))) acc) [] (sc_targets s)).
 Definition obs_of_sidecar (prom : Z) (s : sidecar) (ok : bool) : sc_obs :=
   {| so_status := obs_status (sc_status s); so_head := rt_head prom s; so_proc := rt_proc s; so_idle := sc_idle s; so_ok := ok;
-     so_samples := model_samples s; so_samples_stable := true |}.
+     so_samples := model_samples s; so_samples_stable := true; so_injected := model_injected s |}.
 
 Definition sobs_eqb (a b : sobs) : bool :=
   N.eqb (sb_hash a) (sb_hash b) && tstate_eqb (sb_state a) (sb_state b) && health_eqb (sb_health a) (sb_health b) &&
@@ -52,7 +67,8 @@ Definition sc_obs_eqb (a b : sc_obs) : bool :=
                        Z.eqb (fst (sm_keep x)) (fst (sm_keep y)) && Z.eqb (snd (sm_keep x)) (snd (sm_keep y)) &&
                        Z.eqb (fst (sm_drop x)) (fst (sm_drop y)) && Z.eqb (snd (sm_drop x)) (snd (sm_drop y)))
            (so_samples a) (so_samples b) &&
-  Bool.eqb (so_samples_stable a) (so_samples_stable b).
+  Bool.eqb (so_samples_stable a) (so_samples_stable b) &&
+  list_eqb (fun x y => N.eqb (fst x) (fst y) && list_eqb N.eqb (snd x) (snd y)) (so_injected a) (so_injected b).
 
 Definition op_ok (s : sidecar) (op : sc_op) : bool :=
   match op with OpUpdate req now ok => ok | _ => true end.
